@@ -113,7 +113,17 @@ func ImportModuleLevelObject(ctx Context, name string, globals, locals StringDic
 		}
 	}
 
-	module, err := RunFile(ctx, srcPathname, opts, name)
+	// Resolve separately from running, so that "no such file" from the
+	// search (and only that) can be reported as ImportError.
+	out, err := ctx.ResolveAndCompile(srcPathname, opts)
+	if err != nil {
+		if IsException(FileNotFoundError, err) {
+			return nil, ExceptionNewf(ImportError, "No module named '%s'", name)
+		}
+		return nil, err
+	}
+
+	module, err := RunCode(ctx, out.Code, out.FileDesc, name)
 	if err != nil {
 		return nil, err
 	}
